@@ -100,6 +100,11 @@ def run(ctx):
             ctx.error("R9", "positive control not matched")
         ctx.floor(rs, 40)
 
+    if ctx.want("R6"):
+        rs = ctx.rule("R6", "real managers: the simplifier of a second environment (quantifier pruning included) answers the same whether or not the first environment worked on nodes with the same ids before")
+        from . import mgr_deep
+        mgr_deep.report(ctx, rs, [r for r in mgr_deep.xenv_results() if "ForAll" in r[1] or "Exists" in r[1] or r[0] != "ok"], "pysmt/simplifier.py", 4)
+
     from . import c01_deep
     c01_deep.run(ctx)
     from . import c01_arrays
